@@ -29,6 +29,10 @@ type c16Case struct {
 	// Prior: an earlier NoWait SetRateLimit on the same client whose ACK ("ok" errno 0 / "refused" EPERM) is
 	// still unread when the setter under test runs: it must send its one request all the same
 	Prior string `json:"prior_undrained_nowait_request,omitempty"`
+	// PriorN: how many such earlier NoWait requests (0 means 1): "every Set* command" includes the 17th, 41st and
+	// 101st in a row with nothing collected in between; every one of the earlier requests is checked for its
+	// flags too
+	PriorN int `json:"prior_requests,omitempty"`
 	// NoAck: the kernel never answers (every receive says EAGAIN): a WaitForReply setter gives up with an
 	// error after having sent its ONE request
 	NoAck bool `json:"no_ack_ever,omitempty"`
@@ -52,11 +56,13 @@ func c16Setter(c *mon.Ctx, k *c16Case) {
 	cl := &libaudit.AuditClient{Netlink: sim}
 	first := 0
 	if k.Prior != "" {
-		if err := cl.SetRateLimit(77, libaudit.NoWait); err != nil {
-			c.Violation("setter-error", fmt.Sprintf("the prior NoWait SetRateLimit returned %v", err), k)
-			return
+		first = max(1, k.PriorN)
+		for i := 0; i < first; i++ {
+			if err := cl.SetRateLimit(77, libaudit.NoWait); err != nil {
+				c.Violation("setter-error", fmt.Sprintf("the prior NoWait SetRateLimit #%d returned %v", i+1, err), k)
+				return
+			}
 		}
-		first = 1
 	}
 	wm := libaudit.WaitForReply
 	if k.NoWait {
@@ -97,7 +103,7 @@ func c16Setter(c *mon.Ctx, k *c16Case) {
 		c.Violation("panic", fmt.Sprintf("%s(%d) panicked: %v\n%s", k.Setter, k.Arg, p, st), k)
 		return
 	}
-	desc := fmt.Sprintf("%s(%d) nowait=%v prior=%q", k.Setter, k.Arg, k.NoWait, k.Prior)
+	desc := fmt.Sprintf("%s(%d) nowait=%v prior=%q x%d", k.Setter, k.Arg, k.NoWait, k.Prior, first)
 	// with an unread ACK of an earlier NoWait request a WaitForReply setter reads that ACK as its own (known
 	// finding of C17): its return value is not judged here, its request is
 	judgeReply := (k.Prior == "" || k.NoWait) && !(k.NoAck && !k.NoWait)
@@ -112,6 +118,12 @@ func c16Setter(c *mon.Ctx, k *c16Case) {
 	if len(sim.Sent) != first+1 {
 		c.Violation("setter-send-count", fmt.Sprintf("%s sent %d requests, want exactly one", desc, len(sim.Sent)-first), k)
 		return
+	}
+	for i := 0; i < first; i++ {
+		if pm := sim.Sent[i]; pm.Type != uapi.MsgSet || pm.Flags != uapi.NlmFRequest|uapi.NlmFAck {
+			c.Violation("setter-flags", fmt.Sprintf("%s: the earlier NoWait SetRateLimit #%d went out with type %d flags %#x, want AUDIT_SET with NLM_F_REQUEST|NLM_F_ACK (0x5)", desc, i+1, pm.Type, pm.Flags), k)
+			return
+		}
 	}
 	m := sim.Sent[first]
 	if m.Type != uapi.MsgSet {
@@ -331,6 +343,11 @@ func c16Run(c *mon.Ctx) {
 				for _, prior := range []string{"ok", "refused"} {
 					cases = append(cases, &c16Case{Kind: "setter", Setter: s, Arg: a, NoWait: nw, Prior: prior})
 				}
+				if a == args[0] {
+					for _, n := range []int{2, 15, 16, 17, 40, 100, 300} {
+						cases = append(cases, &c16Case{Kind: "setter", Setter: s, Arg: a, NoWait: nw, Prior: "ok", PriorN: n})
+					}
+				}
 			}
 		}
 	}
@@ -387,7 +404,7 @@ func c16Run(c *mon.Ctx) {
 func init() {
 	register(&mon.CheckSpec{
 		ID: "C16", Level: "exploration",
-		Rule: "cases = every Set* command x {all uint32/int32 boundary values, both booleans, all failure modes incl. the exported names, random values} x both wait modes, observed as the NetlinkMessage handed to a simulated kernel's Send and decoded word by word at the UAPI audit_status offsets (one request, type 1001, flags REQUEST|ACK, 44-byte payload, exactly one mask bit, the value in its field, every other word zero; NoWait does no receive); the 21 exported numbers against the kernel's; GetStatus's request (one AUDIT_GET, REQUEST|ACK, empty) and its decoding of replies of every length 0..96; FromWireFormat on every buffer length 0..96 x random / all-ones / all-zero contents with a garbage-prefilled receiver and the input ending at a PROT_NONE page. The same cases run a second time under the race detector (checkptr) and, in the thorough tier, under ASan. distinct_nontrivial = distinct (setter, value, mode) triples and distinct buffers.",
+		Rule: "cases = every Set* command x {all uint32/int32 boundary values, both booleans, all failure modes incl. the exported names, random values} x both wait modes (also as the 2nd..301st request in a row of uncollected NoWait requests), observed as the NetlinkMessage handed to a simulated kernel's Send and decoded word by word at the UAPI audit_status offsets (one request, type 1001, flags REQUEST|ACK, 44-byte payload, exactly one mask bit, the value in its field, every other word zero; NoWait does no receive); the 21 exported numbers against the kernel's; GetStatus's request (one AUDIT_GET, REQUEST|ACK, empty) and its decoding of replies of every length 0..96; FromWireFormat on every buffer length 0..96 x random / all-ones / all-zero contents with a garbage-prefilled receiver and the input ending at a PROT_NONE page. The same cases run a second time under the race detector (checkptr) and, in the thorough tier, under ASan. distinct_nontrivial = distinct (setter, value, mode) triples and distinct buffers.",
 		Assumptions: []string{
 			"expected offsets, mask bits and numbers come from internal/uapi (hand-written from linux/audit.h, self-tested against the system header)",
 			"a field the buffer reaches only partially may be zero or hold the reached low bytes (the statement does not define it)",
